@@ -17,9 +17,20 @@ SRC_SPEC = ("crc.go:*;encoding.go:*;modbus.go:mapExceptionCodeToError,mapErrorTo
             "ModbusClient.WriteCoil,ModbusClient.WriteCoils,ModbusClient.WriteRegister,ModbusClient.WriteRegisters,"
             "ModbusClient.WriteUint32s,ModbusClient.WriteUint32,ModbusClient.WriteFloat32s,ModbusClient.WriteFloat32,"
             "ModbusClient.WriteUint64s,ModbusClient.WriteUint64,ModbusClient.WriteFloat64s,ModbusClient.WriteFloat64;"
-            "server.go:ModbusServer.handleTransport")
-# functions whose external calls (transport, user handler) thread a state-of-the-world value
-SRC_WORLD = "ModbusServer.handleTransport"
+            "server.go:ModbusServer.handleTransport;"
+            "tcp_transport.go:tcpTransport.readMBAPFrame,tcpTransport.readResponse,tcpTransport.ReadRequest,"
+            "tcpTransport.WriteResponse,tcpTransport.ExecuteRequest,tcpTransport.Close;"
+            "rtu_transport.go:rtuTransport.Close,rtuTransport.ExecuteRequest,rtuTransport.ReadRequest,"
+            "rtuTransport.WriteResponse,rtuTransport.readRTUFrame,discard")
+# the transport layer: sockets, serial links and the clock are external
+SRC_TRANSPORT = ("tcpTransport.readMBAPFrame,tcpTransport.readResponse,tcpTransport.ReadRequest,"
+                 "tcpTransport.WriteResponse,tcpTransport.ExecuteRequest,tcpTransport.Close,"
+                 "rtuTransport.Close,rtuTransport.ExecuteRequest,rtuTransport.ReadRequest,"
+                 "rtuTransport.WriteResponse,rtuTransport.readRTUFrame,discard")
+# functions whose external calls (transport, user handler, socket, clock) thread a state-of-the-world value
+SRC_WORLD = "ModbusServer.handleTransport," + SRC_TRANSPORT
+# functions translated in signed mode (int / time.Duration as two's-complement patterns, instants as numbers)
+SRC_SIGNED = SRC_TRANSPORT
 
 
 def regen_src(verif_dir, repo_dir, goenv):
@@ -31,7 +42,7 @@ def regen_src(verif_dir, repo_dir, goenv):
     try:
         try:
             p = subprocess.run(["go", "run", "./cmd/gosrc", "-repo", repo_dir, "-out", tmp, "-name", "SrcPure",
-                                "-spec", SRC_SPEC, "-world", SRC_WORLD], cwd=hd, env=goenv,
+                                "-spec", SRC_SPEC, "-world", SRC_WORLD, "-signed", SRC_SIGNED], cwd=hd, env=goenv,
                                stdout=subprocess.PIPE, stderr=subprocess.STDOUT, text=True, timeout=600)
         except Exception as e:  # noqa
             return "gosrc could not be run: %r" % (e,)
